@@ -81,10 +81,14 @@ def expected_items(nodes, vals, seed_mode):
             raw = n["ival"] if n["ival"] is not None and n["ival"] >= 0 else (1 << w) - 1
         elif n["type"] == 8 and pv[0] in ("miss", "none"):
             raw = None    # a new reference value that was never set: what goes on the wire is not defined
+        elif pv[0] == "miss" and n["ref"] < 0 and v.split("@")[0] in ("i:-1", "l:-1"):
+            raw = None    # integer -1 under a negative reference: the library's sentinel is ambiguous (see c01.same_value)
         elif pv[0] == "miss" or pv[0] == "none":
             raw = (1 << w) - 1
         elif seed_mode is not None:
             raw = datasets.fill_raw(seed_mode[1], seed_mode[0], i, w, n["type"])
+            if n["type"] == 8 and raw == 1 << (w - 1):
+                raw = 0      # sign-and-magnitude "minus zero" is the value 0, which FM 94 writes as 0
         else:
             raw = None
         out.append((n["desc"], w, afw, afv, ("r", raw)))
